@@ -496,4 +496,7 @@ def jobs(tier):
         out.append(("table75", lambda j: job_table(j, 75)))
         out.append(("facade-four-pressures", lambda j: job_facade_three(j, "f8", 4)))
         out.append(("table50", lambda j: job_table(j, 50)))
+        out.append(("facade-four-pressures-int64", lambda j: job_facade_three(j, "i8", 4)))
+        out.append(("facade-five-pressures", lambda j: job_facade_three(j, "f8", 5)))
+        out.append(("table60", lambda j: job_table(j, 60)))
     return out
